@@ -19,20 +19,24 @@ MANIFEST = {
     "design_ref": "DESIGN.md 4.8",
     "technique": "Coq proof by structural induction over bijection expression trees (Model/Bij.v, nested-list tensors of any rank) "
                  "+ exact correspondence of the extracted model with real flowjax combinators on generated trees",
-    "text": "Theorems (closed under the global context, any carrier, any tree depth/width/rank): for every well-constructed tree and "
-            "correctly shaped input the code-shaped semantics `run` (array_split at cumulative indices, jnp.split+squeeze, "
-            "expand_dims+concatenate, filter_vmap slices, x.at[idx].set, numpy axis normalisation, the entry checks at every node) "
-            "returns exactly the definition-shaped semantics `den` (axis mod rank, slices at offsets, take/stack, composition, "
-            "indexed update), with output of the declared shape and a scalar log-det; Partial frame property; Invert swaps; "
-            "Scan = Chain; merge_chains / Chain slicing preserve meaning; the pre-fix Stack / Vmap shape formulas are refuted. "
-            "The model is tied to /repo on every run: random trees (Chain, Scan, Invert, Concatenate, Stack, Vmap broadcast/mapped "
-            "with condition axis, Partial with int/slice/int-array/bool-array/tuple indices, Reshape, EmbedCondition over "
-            "Identity/Loc/Scale/Affine/Flip/Permute/AdditiveCondition), ranks 0-3, all axes incl. negative, are compared on shape, "
-            "cond_shape, four methods and constructor exceptions, exactly.",
-    "note": "Trusted: Coq kernel; extraction (ExtrOcamlBasic); OCaml driver + S-expression parser; serialiser (walks the real object); "
-            "jnp.array_split/split/concatenate/stack/reshape/indexing as documented by NumPy. Zero-sized axes, several array indices "
-            "in one Partial index, and a condition axis on an unconditional Vmap child are outside the model (not generated). "
-            "The theorems are about the model; the code is tied by sampled exact correspondence.",
+    "text": "26 theorems, all closed under the global context, for an arbitrary carrier and any tree depth/width/rank/axis: for every "
+            "well-constructed tree and correctly shaped input the code-shaped semantics `run` (entry checks at every node, array_split at "
+            "cumulative indices, jnp.split+squeeze, expand_dims+concatenate, vmap slices with the condition axis normalised like jax.vmap, "
+            "x.at[idx].set, numpy axis normalisation) returns exactly the definition-shaped semantics `den` (axis mod rank, slices at "
+            "offsets, take/stack, composition, indexed update), with output of the declared shape and a scalar log-det; the operations `den` "
+            "uses are characterised entry by entry as jnp.take / slicing / concatenate / stack; Partial frame property and indexed-entry "
+            "property; Invert swaps (all inputs); Scan = Chain; Reshape only re-presents; Chain = composition with additive log-dets, slicing "
+            "and merge_chains (any nesting, flat result) preserve the function (den-level, hence `_partial`: transfers to `run` when both "
+            "chains construct); declared shapes of Stack/Concatenate/Vmap; the pre-fix Stack/Vmap formulas refuted (and shown right for "
+            "non-negative axes). Tie on every run: random trees (Chain, Scan, Invert, Concatenate, Stack, Vmap broadcast/mapped with "
+            "condition axis, Partial with int/slice/int-array/bool-array/tuple indices incl. out-of-range JAX conventions, Reshape, "
+            "EmbedCondition over Identity/Loc/Scale/Affine/Flip/Permute/AdditiveCondition), ranks 0-3, EVERY axis in -(r+2)..r+1, compared on "
+            "shape, cond_shape, four methods (values exact, log-det 1e-9), constructor exceptions over the full shape / cond-shape lattice, "
+            "merge_chains / chain[lo:hi] / merge_transforms; oracle = independent recursive NumPy interpreter of the definitions.",
+    "note": "Trusted: Coq kernel; extraction (ExtrOcamlBasic); OCaml driver + S-expression parser; serialiser (walks the real object, parameters "
+            "after unwrap); NumPy/JAX primitives as documented. Zero-sized axes, several array indices in one Partial index, and a condition "
+            "axis on an unconditional Vmap child are outside the model (not generated; the model answers `unsupported`). merge_transforms has no "
+            "model (oracle only). The theorems are about the model; the code is tied by sampled exact correspondence.",
 }
 METHODS = ["transform", "inverse", "transform_and_log_det", "inverse_and_log_det"]
 _st = {}
@@ -143,6 +147,14 @@ def build_top(spec, ch):
         return fb.Vmap(ch[0], axis_size=spec[1], in_axes_condition=spec[2])
     if k == "vmap_m":
         return fb.Vmap(stack_modules(ch), in_axes=eqx.if_array(0), in_axes_condition=spec[1])
+    if k == "vmap_p":
+        # the documented "fine grained" use: Affine with an elementwise (mapped) loc and one global (broadcast) scale
+        n, inner = spec[1], tuple(spec[2])
+        bij = eqx.tree_at(lambda b: (b.loc, b.scale), _base("affine", inner),
+                          (arr([n, *inner], spec[3]), arr(inner, spec[4])))
+        in_axes = f["jax"].tree_util.tree_map(lambda _: None, bij)
+        in_axes = eqx.tree_at(lambda b: b.loc, in_axes, 0, is_leaf=lambda x: x is None)
+        return fb.Vmap(bij, in_axes=in_axes)
     if k == "partial":
         return fb.Partial(ch[0], idx_of(spec[1]), tuple(spec[2]))
     if k == "reshape":
@@ -862,10 +874,10 @@ def run(ctx):
     um = ctx.unit("chain-unit", "nested Chains: merge_chains() and chain[lo:hi] on the real object compute the same function (oracle) and "
                                 "agree with Model.Bij.merge_chains / chain_slice; chain[:i] then chain[i:] composes to the chain")
     ut = ctx.unit("merge-transforms-unit", "Transformed.merge_transforms keeps log_prob and removes the nesting (oracle only; no model)")
-    chain_unit(ctx, um, G, rng, 40 if ctx.quick else 800)
+    chain_unit(ctx, um, G, rng, 40 if ctx.quick else 500)
     merge_transforms_unit(ctx, ut, G, rng, 15 if ctx.quick else 300)
-    n_trees = 260 if ctx.quick else 5000
-    n_bad = 160 if ctx.quick else 3000
+    n_trees = 260 if ctx.quick else 3000
+    n_bad = 160 if ctx.quick else 2000
     # ---- directed: all axes
     for r in range(0, 4):
         for rep in range(1 if ctx.quick else 6):
@@ -888,6 +900,16 @@ def run(ctx):
         sh = G.shape(G.ri(1, 3))
         idx, sub = G.index(sh)
         check_tree(ctx, ud, ["partial", idx, sh, G.tree(sub, [2], 0)], rng, f"partial:{idx[0]}")
+    # JAX index conventions the model mirrors: an out-of-range int / int-array entry wraps once, then the gather clamps and
+    # the scatter drops it (NumPy would raise, so the oracle is silent here; model vs implementation only)
+    for n in (2, 3):
+        for idx in (["int", n], ["int", n + 2], ["int", -n - 1], ["int", -n - 3], ["arr", [0, n + 1]], ["arr", [-n - 2, 1]],
+                    ["arr", [n, -n - 1]], ["tuple", [["int", n + 1], ["slice", None, None, -1]]]):
+            sub = list(np.zeros((n, 2))[np_idx_of(["int", 0]) if idx[0] == "int" else (np_idx_of(["arr", [0] * len(idx[1])]) if idx[0] == "arr"
+                                        else (0, slice(None, None, -1)))].shape)
+            check_tree(ctx, ud, ["partial", idx, [n, 2], G.tree(sub, None, 0)], rng, f"partial-oob:{idx[0]}")
+    for n, inner in ((3, []), (2, [2]), (3, [1, 2])):  # parameters partly mapped, partly broadcast (in_axes given as a pytree)
+        check_tree(ctx, ud, ["vmap_p", n, inner, G.ints([n, *inner]), G.pow2(inner)], rng, "vmap:in_axes-pytree")
     for spec, tag in directed_ctor_specs(G, ctx.quick):
         check_tree(ctx, uc, spec, rng, tag)
     # ---- random trees
